@@ -230,6 +230,8 @@ MUTANTS = [
     ("ggnvp-jvp-of-argument-zero", {"C16": "A15.products"}, [(DO, "        f_vjp, f_x = _make_vjp(f, x)\n        g_hvp, grad_g_x = _make_vjp(grad(g), f_x)", "        f_vjp, f_x = _make_vjp(f, x)\n        g_hvp, grad_g_x = _make_vjp(grad(g), x)")]),
     ("sort-jvp-drops-kind", {"C02": "A2.drop", "C04": "A2.drop"}, [(NJ, "    sort_perm = anp.argsort(x, axis, kind, order)", "    sort_perm = anp.argsort(x, axis=axis, order=order)")]),
     ("atleast-declared-linear-in-all-arguments", {"C02": "A1.lin"}, [(NJ, "defjvp(anp.atleast_1d, atleast_jvpmaker(anp.atleast_1d))", "def_linear(anp.atleast_1d)")]),
+    ("einsum-list-format-unbroadcast-by-output-sublist", {"C05": "A3.einsum", "C01": "A3.einsum"}, [(NV, "            return unbroadcast_einsum(anp.einsum(g, *rest_of_ops), result_meta, operands[argnum + 1])", "            return unbroadcast_einsum(anp.einsum(g, *rest_of_ops), result_meta, operands[-1])")]),
+    ("inner-product-in-fixed-double-precision", {"C13": "A9.pure"}, [(NS, "        return np.dot(np.ravel(x), np.ravel(y))", "        return np.dot(np.ravel(np.asarray(x, dtype=np.float64)), np.ravel(np.asarray(y, dtype=np.float64)))")]),
     ("container-space-loses-subval", {"C12": "A1.spaces"}, [(BU, "    def _subval(self, xs, idx, x):\n        d = dict(xs.items())\n        d[idx] = x\n        return d\n", "")]),
 ]
 
